@@ -62,8 +62,6 @@ def drive(rep, tier, seed):
         evs = [None, None]
         ops = BIN_OPS if tier == "thorough" or i < 120 else rng.sample(BIN_OPS, 12)
         for op in ops:
-            if op in ("//", "%%", "/!", "%") and b == 0 and op == "%":
-                continue
             steps.append({"src": "a %s b" % op})
             evs.append({"ev": "bin", "op": op, "a": a, "b": b})
         for op in UN_OPS:
